@@ -422,7 +422,7 @@ func hoTCPKeys(c vCfg) map[int][]int {
 	return out
 }
 
-var vKeyClass = map[int]int{1: 1, 2: 2, 3: 3, 4: 1, 6: 4, 7: 5}
+var vKeyClass = map[int]int{1: 1, 2: 2, 3: 3, 4: 1, 6: 4, 7: 5, 8: 5}
 
 // hoClasses: key classes per address for one protocol (again only to decide in which ORDER the clients go)
 func hoClasses(c *vCfg, proto string) map[int]map[int]bool {
